@@ -344,7 +344,8 @@ def main(argv=None):
     by_backend = {}
     solver_s = 0.0
     vac_fail = []
-    repdir = os.path.join(VERIF, "evidence", "replays")
+    evdir = os.environ.get("PYVC_EVIDENCE_DIR") or os.path.join(VERIF, "evidence")
+    repdir = os.path.join(evdir, "replays")
     os.makedirs(repdir, exist_ok=True)
     sat_obls = []
     for o in ctx.obls:
@@ -500,8 +501,8 @@ def main(argv=None):
         "property_id": prop, "tier": tier, "seed": seed, "level": level, "coverage": cov,
         "assumptions": ctx.assumptions, "wall_s": round(wall, 2), "violations": len(violations),
     }
-    os.makedirs(os.path.join(VERIF, "evidence"), exist_ok=True)
-    json.dump(evd, open(os.path.join(VERIF, "evidence", f"{prop}.json"), "w"), indent=1, default=str)
+    os.makedirs(evdir, exist_ok=True)
+    json.dump(evd, open(os.path.join(evdir, f"{prop}.json"), "w"), indent=1, default=str)
 
     print(f"[{prop}] tier={tier} obligations={n_valid} discharged={n_discharged} undecided={len(undecided)} "
           f"canaries={cov['vacuity_guards']['canaries']} bounded={len(bounded_results)} wall={wall:.1f}s")
